@@ -5,6 +5,7 @@ import (
 	"fmt"
 	"math"
 	"net/http"
+	"sort"
 	"strconv"
 	"strings"
 	"time"
@@ -105,7 +106,7 @@ func compareFields(got *apiEntry, e refEntry, anonNow bool) (field, g, w string)
 		{"question.class", got.Question.Class, k.XClass},
 		{"ecs", got.ECS, k.ECS},
 		{"upstream", got.Upstream, k.Upstream},
-		{"elapsedMs", got.Elapsed, k.XElapsed},
+		{"elapsedMs", normMs(got.Elapsed), k.XElapsed},
 		{"cached", strconv.FormatBool(got.Cached), strconv.FormatBool(k.Cached)},
 		{"reason", got.Reason, k.XReason},
 		{"rules", strings.Join(rulesGot, " ; "), strings.Join(rulesWant, " ; ")},
@@ -129,6 +130,16 @@ func compareFields(got *apiEntry, e refEntry, anonNow bool) (field, g, w string)
 		}
 	}
 	return "", "", ""
+}
+
+// normMs rounds the API's float milliseconds to the nanosecond; the text is
+// the product of two floats and may carry representation noise.
+func normMs(s string) string {
+	f, err := strconv.ParseFloat(s, 64)
+	if err != nil {
+		return s
+	}
+	return strconv.FormatFloat(math.Round(f*1e6)/1e6, 'f', -1, 64)
 }
 
 // maskIP is the reference's anonymisation: IPv4 keeps two octets, IPv6 keeps
@@ -402,7 +413,7 @@ func eval(e *env, m *model, r request) (res evalResult) {
 			tier := m.tierOf(w.T)
 			det := tier
 			if m.newestOnDisk(w.T) {
-				det += "(newest-record-on-disk)"
+				det = "newest-record-on-disk"
 			}
 			gotT := "(end of answer)"
 			if i < len(res.times) {
@@ -487,36 +498,41 @@ func checkQuery(e *env, m *model, r request) (*viol, evalResult) {
 	}
 	fr, fres := r, res
 	if res.d.Class != "crash" {
-		if fr.Search != "" || fr.Status != "" {
-			r2 := fr
-			r2.Search, r2.Status = "", ""
-			if x := eval(e, m, r2); x.d.Class != "" && x.d.Class != "crash" {
-				fr, fres = r2, x
-			} else if fr.Search != "" && fr.Status != "" {
-				r3 := fr
-				r3.Status = ""
-				if x = eval(e, m, r3); x.d.Class != "" && x.d.Class != "crash" {
-					fr, fres = r3, x
-				} else {
-					r3 = fr
-					r3.Search = ""
-					if x = eval(e, m, r3); x.d.Class != "" && x.d.Class != "crash" {
-						fr, fres = r3, x
-					}
-				}
+		// Try the request with parameters removed, fewest remaining
+		// parameters first; keep the first variant that still fails.
+		vals := [5]*string{&r.OlderThan, &r.Limit, &r.Offset, &r.Search, &r.Status}
+		var present []int
+		for i, v := range vals {
+			if *v != "" {
+				present = append(present, i)
 			}
 		}
-		if fr.Limit != "" || fr.Offset != "" {
-			r2 := fr
-			r2.Limit, r2.Offset = "", ""
+		type cand struct {
+			keep int // bit set over present
+			n    int
+		}
+		var cands []cand
+		for keep := 0; keep < 1<<len(present)-1; keep++ { // the full set is r itself
+			n := 0
+			for b := range present {
+				if keep>>b&1 == 1 {
+					n++
+				}
+			}
+			cands = append(cands, cand{keep, n})
+		}
+		sort.SliceStable(cands, func(i, j int) bool { return cands[i].n < cands[j].n })
+		for _, cd := range cands {
+			r2 := request{}
+			dst := [5]*string{&r2.OlderThan, &r2.Limit, &r2.Offset, &r2.Search, &r2.Status}
+			for b, i := range present {
+				if cd.keep>>b&1 == 1 {
+					*dst[i] = *vals[i]
+				}
+			}
 			if x := eval(e, m, r2); x.d.Class != "" && x.d.Class != "crash" {
 				fr, fres = r2, x
-			} else if fr.Offset != "" {
-				r2 = fr
-				r2.Offset = ""
-				if x = eval(e, m, r2); x.d.Class != "" && x.d.Class != "crash" {
-					fr, fres = r2, x
-				}
+				break
 			}
 		}
 	}
